@@ -15,6 +15,7 @@ import (
 	"bytes"
 	"context"
 	"encoding/json"
+	"errors"
 	"fmt"
 	"os"
 
@@ -209,6 +210,15 @@ func (db *DB) basicExport(ctx context.Context, config *client.BackupConfig) (err
 
 		firstDoc := true
 		for docResultWithID := range docIDsCh {
+			doc, err := col.Get(ctx, docResultWithID.ID, false)
+			if err != nil {
+				if errors.Is(err, client.ErrDocumentNotFoundOrNotAuthorized) {
+					// GetAllDocIDs also yields the ids of deleted documents,
+					// which are not part of the backup.
+					continue
+				}
+				return err
+			}
 			if firstDoc {
 				firstDoc = false
 			} else {
@@ -217,10 +227,6 @@ func (db *DB) basicExport(ctx context.Context, config *client.BackupConfig) (err
 				if err != nil {
 					return err
 				}
-			}
-			doc, err := col.Get(ctx, docResultWithID.ID, false)
-			if err != nil {
-				return err
 			}
 
 			isSelfReference := false
